@@ -178,17 +178,47 @@ def canon_model_path(j):
             'keys': [[common.from_cps(k), canon_model_val(v)] for k, v in j['keys']]}
 
 
-def real_parse(text, cls='inst'):
+def poison(q):
+    """a result of from_wbem_uri() belongs to the caller: change everything mutable in it (at every nesting level), so that
+    any state it shares with the result of a later call becomes visible"""
+    import pywbem
+    for k in list(q.keybindings.keys()):
+        v = q.keybindings[k]
+        if isinstance(v, pywbem.CIMInstanceName):
+            poison(v)
+    q.host = 'poisoned.example'
+    q.namespace = 'poisoned/ns'
+    q.classname = 'Poisoned'
+    q.keybindings['poisoned'] = 'x'
+
+
+def _parse_once(text, cls):
     import pywbem
     try:
         with warnings.catch_warnings():
             warnings.simplefilter('ignore')
             if cls == 'inst':
-                return {'ok': canon_real_path(pywbem.CIMInstanceName.from_wbem_uri(text))}
+                q = pywbem.CIMInstanceName.from_wbem_uri(text)
+                out = {'ok': canon_real_path(q)}
+                poison(q)
+                return out
             q = pywbem.CIMClassName.from_wbem_uri(text)
-            return {'ok': {'host': q.host, 'ns': q.namespace, 'cls': q.classname}}
+            out = {'ok': {'host': q.host, 'ns': q.namespace, 'cls': q.classname}}
+            q.host, q.namespace, q.classname = 'poisoned.example', 'poisoned/ns', 'Poisoned'
+            return out
     except Exception as e:  # noqa
         return common.exc_json(e)
+
+
+def real_parse(text, cls='inst'):
+    """parse twice in this process, mutating the first result before the second call; the answers must be the same
+    (`unstable` carries the first answer when they are not)"""
+    first = _parse_once(text, cls)
+    second = _parse_once(text, cls)
+    if first != second:
+        second = dict(second)
+        second['unstable'] = first
+    return second
 
 
 def model_parse_canon(ans, cls='inst'):
@@ -464,11 +494,32 @@ def g_hostile(rng):
     return h            # the bare token
 
 
+SQ_VALUES = ["','", "'\\''", "'\\\\'", "'a'", "'\\,'", "' '", "'='", "'\\\"'", "'x'", "',,'", "''", "'\\'", "'a", "a'", "','x", "'\u00e9'", "'{'", "'%'"]
+UQ_VALUES = ['1', '-7', 'TRUE', 'false', '1.5', '1.0e+16', 'INF', '0x1F', '101b', '20140924193040.654321+120', 'abc']
+
+
+def g_single_quoted(rng):
+    """instance URI WITHOUT any double quote whose keys are unquoted literals and single-quoted (char16) values containing
+    comma, escaped apostrophe, backslash - the single-quoted value at every key position (first, middle, last)"""
+    n = rng.choice([1, 2, 2, 3, 3, 4, 5])
+    pos = rng.randrange(n)
+    kbs = []
+    for i in range(n):
+        if i == pos or rng.random() < 0.3:
+            v = rng.choice(SQ_VALUES)
+        else:
+            v = rng.choice(UQ_VALUES)
+        kbs.append('k%d=%s' % (i + 1, v))
+    return rng.choice(HOSTILE_HEADS) + 'C.' + ','.join(kbs)
+
+
 def g_text(rng, printed):
     """parser input: mutated printed URIs, scheme/authority forms, fragments"""
     r = rng.random()
     if r < 0.12:
         return g_hostile(rng)
+    if r < 0.20:
+        return g_single_quoted(rng)
     if r < 0.55 and printed:
         t = rng.choice(printed)
         for _ in range(rng.choice([1, 1, 1, 2, 3])):
@@ -586,12 +637,24 @@ def oracle_path(run, spec, vspec=None):
                 run.violate({'kind': 'printed_not_accepted', 'fmt': fmt, 'cause': fnd, 'exc': type(e).__name__}, case,
                             {'uri': u, 'exc': type(e).__name__})
                 continue
-            if fmt == 'cimobject':
-                continue
+            # results are the caller's: mutate this one (all nesting levels), parse the same text again, nothing may have changed
+            before = canon_real_path(q)
             try:
                 eq = (q == p)
             except Exception as e:  # noqa
                 eq = False
+            poison(q)
+            try:
+                q = pywbem.CIMInstanceName.from_wbem_uri(u)
+                again = canon_real_path(q)
+            except Exception as e:  # noqa
+                again = common.exc_json(e)
+            if again != before:
+                run.violate({'kind': 'second_parse_differs_after_mutating_first_result', 'fmt': fmt}, case,
+                            {'uri': u, 'first': before, 'second': again})
+                continue
+            if fmt == 'cimobject':
+                continue
             if not eq:
                 if lim != 'none':
                     run.count('limit:' + lim)
@@ -661,6 +724,9 @@ def oracle_text(run, text):
     for cls in ('inst', 'class'):
         r = real_parse(text, cls)
         outs[cls] = r
+        if 'unstable' in r:
+            run.violate({'kind': 'second_parse_differs_after_mutating_first_result', 'cls': cls}, {'kind': 'text', 'text': text},
+                        {'first': r['unstable'], 'second': {k: v for k, v in r.items() if k != 'unstable'}})
         if 'exc' in r and r['exc'] != 'ValueError':
             run.violate({'kind': 'parser_raises_other_than_ValueError', 'exc': r['exc'], 'cls': cls},
                         {'kind': 'text', 'text': text}, r)
@@ -856,6 +922,8 @@ def run(run):
                 'parser texts = printed URIs with 1..3 single-character mutations, scheme/authority prefixes, literal near-misses, '
                 'hand-picked regex corner cases, random text, and (12 %) structurally valid URIs whose unquoted / quoted key value, key name, class, '
                 'namespace, host or scheme is a format-hostile token ({name}, {2}, {0!r}, %s, %(x)s, {{, }}, backslashes); '
+                '(8 %) URIs without any double quote whose single-quoted char16 values contain comma / escaped apostrophe / backslash at '
+                'every key position; every text is parsed twice in the process with the first result mutated in between; '
                 'literal recognisers on near-miss literals; '
                 'a path case is non-trivial when it has >= 1 keybinding, a text case when one of the two parsers accepts it')
     run.assumptions += [
